@@ -17,6 +17,8 @@ for u in UNITS:
     if u['name'] == 'at_add_remove':
         u['enforce'] = ['remove_']
 
+# server::l2cap_output, the consumer of the queue: one dequeue, no other queue operation (contract stated in C08.py)
+UNITS += [dict(u) for u in _load('C08').UNITS if u['name'] == 'l2cap_output']
 UNITS += [
     dict(name='confirmation',
          extracts=dict(CODES_EX, **ERR_EX,
@@ -53,7 +55,7 @@ META = dict(
     level='proof',
     explanation="At most one indication outstanding: dequeue (general, single-entry and top-level wrapper, contracts in C12.py) hands out an "
                 "indication only when no confirmation is outstanding and then records it as outstanding; a pending indication bit is only "
-                "cleared when it is handed out; indication_confirmed() resets the marker. handle_value_confirmation rejects every length "
+                "cleared when it is handed out; indication_confirmed() resets the marker; server::l2cap_output (the consumer) performs exactly one dequeue and no other queue operation (it never confirms). handle_value_confirmation rejects every length "
                 "!= 1 with an Error Response and reports nothing to the link layer in that case, and reports a well-formed confirmation once. "
                 "'Eventually transmitted' is covered by the one-step fairness clause of dequeue (nothing eligible before the returned entry "
                 "is skipped, cursor advances): a ranking argument, not a liveness proof.",
